@@ -67,10 +67,28 @@ def seg_key(seg):
             return "0"
         if "$u" in seg:
             return "undefined"
-        return None
+        if "$a" in seg:
+            return seg_key(seg["$a"])
+        if "$fn" in seg or "$deep" in seg:
+            return None
+        # an object (marker-encoded or already decoded): Object.prototype.toString
+        return "[object Object]"
     if isinstance(seg, list):
-        return ",".join(str(seg_key(x)) for x in seg)
+        # Array.prototype.join: null and undefined give the empty string
+        parts = []
+        for x in seg:
+            if x is None or (isinstance(x, dict) and "$u" in x):
+                parts.append("")
+                continue
+            k = seg_key(x)
+            if k is None:
+                return None
+            parts.append(k)
+        return ",".join(parts)
     return seg
+
+
+PROTO_FUNCS = ("toString", "valueOf", "toLocaleString", "hasOwnProperty", "isPrototypeOf", "propertyIsEnumerable")
 
 
 def get_path(data, path):
@@ -79,6 +97,11 @@ def get_path(data, path):
         return {"$unsupported": 1}
     cur = data
     for seg in path:
+        # members every non-nullish value inherits from its prototype (the runtime encodes a function by its name)
+        if seg in PROTO_FUNCS and cur is not None and not (isinstance(cur, dict) and ("$u" in cur or "$fn" in cur)) \
+                and not (isinstance(cur, dict) and "$o" in cur and seg in cur["$o"]):
+            cur = {"$fn": seg}
+            continue
         if isinstance(cur, dict) and "$o" in cur:
             cur = cur["$o"].get(str(seg) if not isinstance(seg, str) else seg, {"$u": 1})
         elif isinstance(cur, dict) and "$a" in cur:
@@ -91,11 +114,14 @@ def get_path(data, path):
                 return {"$u": 1}
             cur = cur["$a"][i] if 0 <= i < len(cur["$a"]) else {"$u": 1}
         elif isinstance(cur, str):
+            # JavaScript strings are indexed by UTF-16 code unit
+            units = cur.encode("utf-16-le", "surrogatepass")
+            n_units = len(units) // 2
             try:
                 i = int(seg)
-                cur = cur[i] if 0 <= i < len(cur) else {"$u": 1}
+                cur = units[2 * i:2 * i + 2].decode("utf-16-le", "surrogatepass") if 0 <= i < n_units else {"$u": 1}
             except (TypeError, ValueError):
-                cur = len(cur) if seg == "length" else {"$u": 1}
+                cur = n_units if seg == "length" else {"$u": 1}
         else:
             return {"$u": 1}
     return cur
@@ -371,6 +397,12 @@ def run(res):
                   kinds[kind] = kinds.get(kind, 0) + 1
                   got = get_path(d0, data_path)
                   if isinstance(got, dict) and "$unsupported" in got:
+                      continue
+                  if isinstance(got, dict) and "$u" in got and isinstance(value, dict) and "$fn" in value:
+                      # a member inherited from a prototype (`l.constructor`, `s.valueOf`): not part of the data the path
+                      # language addresses, the oracle's data has no such member (own functions of the data are `$fn`
+                      # values there and are compared)
+                      kinds["inherited-member"] = kinds.get("inherited-member", 0) + 1
                       continue
                   if json.dumps(_numnorm(got), sort_keys=True) != json.dumps(_numnorm(value), sort_keys=True):
                       # for-loop items over non-arrays (objects / strings / numbers) are addressed by key: allow object keys
